@@ -603,7 +603,7 @@ def dispatch_child():
             eq = bool(y == x) and not (y != x)
             re_ = y.to_wire(origin=origin) == w
             try:
-                same = t is None or lib.normalize(R.values_of(t, y)) == lib.normalize(expect_after_decode(t, vals, o) or R.values_of(t, y))
+                same = t is None or lib.normalize(norm_vals(t, R.values_of(t, y))) == lib.normalize(norm_vals(t, expect_after_decode(t, vals, o) or R.values_of(t, y)))
             except Exception:
                 same = False
             names = R.names_in(t, vals) if t else []
@@ -730,6 +730,21 @@ def oracle(ctx, kind, case, out):
         rel = any(not (n and n[-1] == b"") for n in names)
         below = any(under_origin(n, o) for n in names)
         tags = {"rel_names": rel, "with_origin": o is not None}
+        try:
+            # the canonical (DNSSEC) form and the compressing writer are still wire forms of the
+            # same record: they must decode to an equal record
+            wc = x.to_wire(origin=origin, canonicalize=True)
+            yc = dns.rdata.from_wire(cl, ty, wc, 0, len(wc), origin)
+            if len(wc) != len(w) or (not below and not (yc == x)):
+                fail("the canonicalized encoding does not decode to an equal record", **tags)
+            fz = io.BytesIO()
+            x.to_wire(fz, {}, origin)
+            wz = fz.getvalue()
+            yz = dns.rdata.from_wire(cl, ty, wz, 0, len(wz), origin)
+            if (not below and not (yz == x)) or yz.to_wire(origin=origin) != w:
+                fail("the compressed encoding does not decode to an equal record", **tags)
+        except Exception as e:
+            fail("canonical / compressed encoding raised " + type(e).__name__ + ": " + str(e)[:60], **tags)
         try:
             f = io.BytesIO()
             x.to_wire(f, None, origin)
